@@ -241,6 +241,9 @@ struct Run<'a> {
     ncid_retired: u64,
     af_seq: u64,
     retired_victim: std::collections::BTreeSet<u64>,
+    /// hostile input whose effect on the victim's state the harness does not model (literal frames,
+    /// raw bytes) has been sent: the error class of a later template violation is then not asserted
+    unmodelled_input: bool,
 }
 
 impl<'a> Run<'a> {
@@ -649,7 +652,7 @@ impl<'a> Run<'a> {
                 }
                 let id = wire::sid(p_server, false, 0);
                 // far beyond anything the victim can have granted: windows are at most 2^17 in this check
-                Some((2, enc(&[Frame::Stream { id, offset: 1 << 40, data: vec![1], fin: false, has_len: true, has_off: true }]), 0, if self.sent.get(&id).is_some_and(|e| e.1.is_some()) { vec![FLOW, FINAL_SIZE] } else { vec![FLOW] }))
+                Some((2, enc(&[Frame::Stream { id, offset: 1 << 40, data: vec![1], fin: false, has_len: true, has_off: true }]), 0, vec![FLOW, FINAL_SIZE])) // (a literal frame sent earlier may have fixed a final size)
             }
             Tpl::FinalSizeChange => {
                 if !established || self.pw.p.lim.max_streams[0] == 0 || self.pw.p.stream_limit(wire::sid(p_server, false, 0)) < 3 || self.pw.p.lim.max_data < 3 {
@@ -727,6 +730,9 @@ impl<'a> Run<'a> {
                 (true, HF::Raw(_)) | (true, HF::RawAck { .. }) => continue,
                 _ => it,
             };
+            if matches!(it, HF::Lit(_) | HF::Raw(_) | HF::RawAck { .. }) {
+                self.unmodelled_input = true;
+            }
             match it {
                 HF::Lit(f) => {
                     if let Frame::NewConnectionId { cid, .. } = f {
@@ -973,7 +979,9 @@ impl<'a> Run<'a> {
                 }
                 if let Some((space, payload, xor, codes)) = self.resolve(t) {
                     self.template_sent = true;
-                    self.allowed = Some((format!("{t:?}"), codes));
+                    if !self.unmodelled_input {
+                        self.allowed = Some((format!("{t:?}"), codes));
+                    }
                     self.send_payload(space, &payload, &PnSel::Next, xor, false, 0);
                     self.labels.push("template-violation");
                 }
@@ -1156,7 +1164,7 @@ pub fn case(c: &Case) -> CaseOut {
             honest_k = Some(k);
         }
     }
-    let mut r = Run { c, pw, labels: vec![], last_pn: [0; 3], allowed: None, template_sent: false, victim_streams: vec![], victim_closed_locally: false, my_cid_seq: 0, log: vec![], past_auth: false, start_live, sent: Default::default(), data_sent: 0, ncid_seq: 0, ncid_retired: 0, af_seq: 0, retired_victim: Default::default() };
+    let mut r = Run { c, pw, labels: vec![], last_pn: [0; 3], allowed: None, template_sent: false, victim_streams: vec![], victim_closed_locally: false, my_cid_seq: 0, log: vec![], past_auth: false, start_live, sent: Default::default(), data_sent: 0, ncid_seq: 0, ncid_retired: 0, af_seq: 0, retired_victim: Default::default(), unmodelled_input: false };
     r.pw.start();
     // phases: how far the handshake gets before hostile input starts
     let mut ok = true;
@@ -1599,7 +1607,7 @@ pub fn case_tp(c: &TpCase) -> CaseOut {
         pw.p.tp.replace_raw = Some(raw);
     }
     let case_dummy = Case { seed: c.seed, victim_client: c.victim_client, cfg: c.cfg.clone(), tp: PuppetTp::default(), puppet_cid_len: 8, phase: 2, honest: false, calm: 0, steps: vec![] };
-    let mut r = Run { c: &case_dummy, pw, labels: vec![], last_pn: [0; 3], allowed: None, template_sent: false, victim_streams: vec![], victim_closed_locally: false, my_cid_seq: 0, log: vec![], past_auth: false, start_live, sent: Default::default(), data_sent: 0, ncid_seq: 0, ncid_retired: 0, af_seq: 0, retired_victim: Default::default() };
+    let mut r = Run { c: &case_dummy, pw, labels: vec![], last_pn: [0; 3], allowed: None, template_sent: false, victim_streams: vec![], victim_closed_locally: false, my_cid_seq: 0, log: vec![], past_auth: false, start_live, sent: Default::default(), data_sent: 0, ncid_seq: 0, ncid_retired: 0, af_seq: 0, retired_victim: Default::default(), unmodelled_input: false };
     r.pw.start();
     if c.victim_client {
         // server puppet: the original DCID is known once the victim's Initial arrived; the encoded
